@@ -4,7 +4,7 @@ import os
 import vlib
 
 SPEC_PROPS = {
-    "TrIn": "C01", "TrOut": "C02", "TrArm": "C02", "TrLife": "C04", "TrFd": "C07",
+    "TrIn": "C01", "TrOut": "C02", "TrArm": "C02", "TrLife": "C04", "TrFd": "C07", "TrLB": "C15",
 }
 
 
@@ -112,6 +112,8 @@ def engine_design(ctx):
     suffix = "" if ctx.thorough else "_quick"
     for m in ("reactor", "reuse"):
         vlib.tlc_model_check(ctx, "Engine", "Engine_%s%s.cfg" % (m, suffix), timeout=2400, heap="12g")
+    # Round-Robin acceptor: three connections over two loops, assigned cyclically (RRBalanced)
+    vlib.tlc_model_check(ctx, "Engine", "Engine_rr.cfg", timeout=600)
     for kf, inv in (("kf1", "NoLeak"), ("kf2", "RegsAnswered")):
         res = vlib.tlc(ctx, "Engine", "Engine_%s.cfg" % kf, timeout=300, workers=4)
         if res["violated"] != inv:
@@ -132,7 +134,9 @@ def engine_project(trace):
                 cur = None
                 if "reuseport" in d:
                     cur = {"cfg": d["cfg"], "loops": d["loops"], "reuseport": d["reuseport"], "ticker": d["ticker"], "events": [], "seq0": d["seq"],
-                           "client": bool(d.get("client"))}
+                           "client": bool(d.get("client")),
+                           # (Round-Robin: the acceptor of a server engine hands its connections out cyclically)
+                           "lb": "rr" if (" lb=0 " in (" " + d["cfg"] + " ") and not d.get("client") and not d["reuseport"]) else "any"}
                     lives.append(cur)
                 continue
             if cur is None:
@@ -219,12 +223,12 @@ def engine_traces(ctx, trace, what):
             nconn, nreg = 0, max(1, sum(1 for e in lv["events"] if e["ev"] == "Dup"))
         cfg = os.path.join(ctx.scratch, "EngineTrace_%s_%d.cfg" % (what.replace(" ", "_").replace("/", "_")[:30], k))
         with open(cfg, "w") as f:
-            f.write("INIT TInit\nNEXT TNext\nCONSTANTS NLoops = %d MaxConns = %d MaxRegs = %d ReusePort = %s Ticker = %s ClientMode = %s\n"
+            f.write("INIT TInit\nNEXT TNext\nCONSTANTS NLoops = %d MaxConns = %d MaxRegs = %d ReusePort = %s Ticker = %s ClientMode = %s LB = \"%s\"\n"
                     "  Sources = {\"stop\", \"open\", \"traffic\", \"close\", \"tick\", \"boot\"}\n"
                     "INVARIANTS OnShutdownOnce AllOpenedClosedBeforeReturn NothingRunsAfterReturn InShutdownMeansDone QueuedIsInQueue ListenersOutliveLoops\n"
                     "POSTCONDITION Accepted\nCHECK_DEADLOCK FALSE\n"
                     % (lv["loops"], nconn if lv["client"] else max(nconn, 1), nreg, "TRUE" if lv["reuseport"] else "FALSE", "TRUE" if lv["ticker"] else "FALSE",
-                       "TRUE" if lv["client"] else "FALSE"))
+                       "TRUE" if lv["client"] else "FALSE", lv.get("lb", "any")))
         jobs.append((k, lv, tf, cfg))
 
     def one(job):
